@@ -80,8 +80,8 @@ def run(tier):
            "distinct_nontrivial": len({tuple(h) for h in allh}), "hash_seeds": list(seeds),
            "samples": allh[:: max(1, len(allh) // 4)][:4],
            "scratch_state_left_behind_without_visible_effect": {k: sorted(v) for k, v in leak_diag.items()}, "alphabet": alphabet, "exhaustive_length": 2 if tier == "quick" else 3,
-           "rule": "TLC enumerates every compile history up to the length bound over an alphabet of 7 accepted designs (combinational, "
-                   "coroutine, prefix-using, hierarchical, std.Fifo user, compile with additional_reserved_names, match) and 6 designs "
+           "rule": "TLC enumerates every compile history up to the length bound over an alphabet of 9 accepted designs (helper function with returns in branches / match / on_reset, awaited sub-coroutine with loop and return, combinational, "
+                   "coroutine, prefix-using, hierarchical, std.Fifo user, compile with additional_reserved_names, match) and 8 designs "
                    "rejected at different stages; plus seeded random histories of length 3-6; every history is replayed in one freshly "
                    "forked interpreter, under several PYTHONHASHSEED values; after every step the projected scratch state must be at "
                    "rest and the outcome must be byte-identical to the design compiled alone in a fresh interpreter"}
